@@ -4,6 +4,8 @@ package main
 
 import (
 	"fmt"
+	"strconv"
+	"strings"
 )
 
 type tables struct {
@@ -29,6 +31,8 @@ func enumerate(tb *tables, sel *selector, emit func(Case)) {
 			enumIntUnary(g, sel, emit)
 		case "conv":
 			enumIntConv(g, sel, emit)
+		case "strconv":
+			enumStrConv(g, sel, emit)
 		case "str":
 			enumStr(g, sel, emit)
 		case "bool":
@@ -161,9 +165,49 @@ func enumIntConv(g *group, sel *selector, emit func(Case)) {
 	}
 }
 
+var valueCtx = []string{"assign", "return", "iface", "arg"}
+
+// string(i) for an integer variable i: the bytes are printed with %x
+func enumStrConv(g *group, sel *selector, emit func(Case)) {
+	a := g.limbsA()
+	at := a.text(g.K.Signed)
+	for _, gk := range kindsOf(g.K) {
+		for _, r := range g.Rows {
+			var hx strings.Builder
+			for _, b := range rowLimbs(r, "s") {
+				fmt.Fprintf(&hx, "%02x", b)
+			}
+			base := Case{Cls: "int", Op: "conv", T: gk.Name, T2: "string", A: at, RT: "string", Res: hx.String(), Hex: true,
+				Red: true, Row: "conv " + gk.Name + " string " + at}
+			expand(base, []string{"V"}, valueCtx, sel, emit)
+		}
+	}
+}
+
+func intList(l limbs) string {
+	p := make([]string, len(l))
+	for i, x := range l {
+		p[i] = strconv.Itoa(x)
+	}
+	return "[" + strings.Join(p, " ") + "]"
+}
+
 func enumStr(g *group, sel *selector, emit func(Case)) {
 	at := strText(g.limbsA())
-	for _, r := range g.Rows {
+	for i, r := range g.Rows {
+		if i == 0 {
+			// conversions string <-> []byte, []rune (the table gives the bytes and the runes)
+			for _, cv := range []struct{ op, expr, rt, pt, res string }{
+				{"tobytes", "[]byte(a)", "[]byte", "[]uint8", intList(rowLimbs(r, "bytes"))},
+				{"torunes", "[]rune(a)", "[]rune", "[]int32", intList(rowLimbs(r, "runes"))},
+				{"bytesrt", "string([]byte(a))", "string", "", at},
+				{"runesrt", "string([]rune(a))", "string", "", at},
+			} {
+				base := Case{Cls: "string", Op: cv.op, T: "string", A: at, RT: cv.rt, PT: cv.pt, Res: cv.res, Expr: cv.expr,
+					Red: true, Row: cv.op + " string " + at}
+				expand(base, []string{"V"}, valueCtx, sel, emit)
+			}
+		}
 		bt := strText(rowLimbs(r, "b"))
 		red := len(at) <= 1 && len(bt) <= 1
 		for _, op := range append([]string{"add"}, cmpOps...) {
@@ -234,7 +278,10 @@ func enumFloat(g *group, sel *selector, emit func(Case)) {
 		}
 		if first {
 			first = false
-			redu := red
+			redu := false // x is in the reduced set iff some row of the group is
+			for _, rr := range g.Rows {
+				redu = redu || rowBool(rr, "red")
+			}
 			for _, op := range []string{"neg", "inc", "dec"} {
 				res := rowF(r, op)
 				if !res.spec() {
